@@ -604,10 +604,25 @@ func checkCookie(cc *cookieCase) string {
 	if s2 := p.Cookie(); !bytes.Equal(s, s2) {
 		return fmt.Sprintf("%+v: formatting the parsed cookie is not a fixed point: %q -> %q", *cc, s, s2)
 	}
+	// the same string received as a Set-Cookie header: the response header files it under its key
+	var h protocol.ResponseHeader
+	h.ParseSetCookie(s)
+	var byKey protocol.Cookie
+	byKey.SetKey(cc.Key)
+	if !h.Cookie(&byKey) {
+		var keys []string
+		h.VisitAllCookie(func(k, _ []byte) { keys = append(keys, string(k)) })
+		return fmt.Sprintf("%+v -> %q: a response header that received this Set-Cookie does not find it under its key %q (filed under %q)", *cc, s, cc.Key, keys)
+	}
+	if string(byKey.Value()) != cc.Value {
+		return fmt.Sprintf("%+v -> %q: looked up in a response header the value is %q", *cc, s, byKey.Value())
+	}
 	return ""
 }
 
-var cookieKeys = []string{"k", "session_id", "a-b.c", "A1", "__Host-x", "!#$%&'*+-.^_`|~"}
+// "": the nameless cookie of the SetCookie documentation ("Set-Cookie: hertz; max-age=10; ..."); a nameless cookie
+// whose value contains '=' cannot be told from a named one and is skipped
+var cookieKeys = []string{"", "k", "session_id", "a-b.c", "A1", "__Host-x", "!#$%&'*+-.^_`|~"}
 var cookieValues = []string{"", "v", "abc123", "a=b", "x%20y", "a/b?c", "!#$&'()*+-./:<=>?@[]^_`{|}~", "1,2"}
 var cookieDomains = []string{"", "example.com", ".example.com", "a.b.c"}
 
@@ -622,6 +637,9 @@ func TestC17CookieExhaustive(t *testing.T) {
 	expires := []int64{0, 1, 86400 * 365 * 30, 253402300799, 1257894000}
 	for _, k := range cookieKeys {
 		for _, v := range cookieValues {
+			if k == "" && (strings.Contains(v, "=") || v == "") {
+				continue
+			}
 			for _, d := range cookieDomains {
 				for _, p := range cookiePaths {
 					for flags := 0; flags < 8; flags++ {
